@@ -8,7 +8,7 @@
         the chord segment B(t_i)B(t_{i+1}) (perpendicular deviation of the de Casteljau control polygon plus
         the overshoot of the curve beyond the chord's ends).
     Soundness (every curve point is within K tol of the polyline) is proved in Flat/CertProofs.v. *)
-From Coq Require Import QArith List Bool.
+From Coq Require Import ZArith QArith List Bool.
 From CV Require Import Base.Dy Flat.Curves.
 Import ListNotations.
 Open Scope Q_scope.
@@ -106,6 +106,38 @@ Definition quadB_f (p0 p1 p2 : pt) (t : Q) : pt :=
 Definition cubeB_f (p0 p1 p2 p3 : pt) (t : Q) : pt :=
   (blc_f (px p0) (px p1) (px p2) (px p3) t t t, blc_f (py p0) (py p1) (py p2) (py p3) t t t).
 
+(** Exactly collinear cubic pieces whose control polygon overshoots the chord while the curve may not: the hull-based
+    overshoot term of [cube_piece_bound2] is conservative there.  Second certificate: the projection onto the chord
+    is the 1-D cubic with Bernstein coefficients (0, a1, a2, cc) (scaled by cc = |c|^2); it is cut into n equal
+    parameter intervals by the polar form and every sub-coefficient g must overshoot [0, cc] by at most sqrt(B) in
+    length: g >= 0 or g^2 <= B cc, and g <= cc or (g - cc)^2 <= B cc. *)
+Definition ovs_ok (cc B g : Q) : bool :=
+  (Qleb 0 g || Qleb (g * g) (B * cc)) && (Qleb g cc || Qleb ((g - cc) * (g - cc)) (B * cc)).
+
+Fixpoint sub_hull_ok (a1 a2 cc B : Q) (n k : nat) : bool :=
+  match k with
+  | O => true
+  | S k' =>
+      let s := inject_Z (Z.of_nat k') / inject_Z (Z.of_nat n) in
+      let u := inject_Z (Z.of_nat k' + 1) / inject_Z (Z.of_nat n) in
+      ovs_ok cc B (blc_f 0 a1 a2 cc s s s) && ovs_ok cc B (blc_f 0 a1 a2 cc s s u) &&
+      ovs_ok cc B (blc_f 0 a1 a2 cc s u u) && ovs_ok cc B (blc_f 0 a1 a2 cc u u u) &&
+      sub_hull_ok a1 a2 cc B n k'
+  end.
+
+Definition collinear_ok (q0 q1 q2 q3 : pt) (B : Q) : bool :=
+  let c := vsub q3 q0 in let e1 := vsub q1 q0 in let e2 := vsub q2 q0 in
+  let cc := Qstrip (nrm2 c) in
+  if Qltb 0 cc && Qeqb (vcross e1 c) 0 && Qeqb (vcross e2 c) 0      (* if: vm_compute is strict in && *)
+  then sub_hull_ok (Qstrip (vdot e1 c)) (Qstrip (vdot e2 c)) cc B 32 32 else false.
+
+(** piece bound used by the cubic checker: the control-polygon bound, or B itself when that bound exceeds B but the
+    collinear certificate shows the piece stays within sqrt(B) of its chord *)
+Definition cube_pb2 (p0 p1 p2 p3 : pt) (B s u : Q) : Q :=
+  let '(q0, q1, q2, q3) := cube_sub_f p0 p1 p2 p3 s u in
+  let b := cube_piece_bound2 q0 q1 q2 q3 in
+  if Qleb b B then b else if collinear_ok q0 q1 q2 q3 B then B else b.
+
 Definition chk_flat_quad (p0 p1 p2 : pt) (ts : list Q) (vs : list pt) (tol K slack : Q) : bool :=
   Nat.eqb (length ts) (length vs) &&
   let l := combine ts vs in
@@ -114,7 +146,7 @@ Definition chk_flat_quad (p0 p1 p2 : pt) (ts : list Q) (vs : list pt) (tol K sla
 Definition chk_flat_cube (p0 p1 p2 p3 : pt) (ts : list Q) (vs : list pt) (tol K slack : Q) : bool :=
   Nat.eqb (length ts) (length vs) &&
   let l := combine ts vs in
-  chk_ends l p0 p3 && chk_pieces (cubeB_f p0 p1 p2 p3) (cube_pb p0 p1 p2 p3) (sqr (K * tol)) slack l.
+  chk_ends l p0 p3 && chk_pieces (cubeB_f p0 p1 p2 p3) (cube_pb2 p0 p1 p2 p3 (sqr (K * tol))) (sqr (K * tol)) slack l.
 
 (** ** The source's step rule (flattenQuadraticBezier), relational in the square root:
     the code takes t = 2 sqrt(tol |D| / |D x (p2-p0)|) with D = p1-p0; a step t obeys the rule when
